@@ -1,7 +1,7 @@
 (* C10 — Nesting, '*' grouping and '@' combination equal sequential application.
    Only statements, each closed by [exact], followed by Print Assumptions. *)
 From Coq Require Import List ZArith QArith.
-From EPG Require Import Scalar QI State Ops Views Diff DiffExact Combine CombineProofs CombineD.
+From EPG Require Import Scalar QI State Ops Views Diff DiffExact Combine CombineProofs CombineD NestD.
 Import ListNotations.
 
 (* (1) a sequence gives the same state whether written flat, as arbitrarily nested lists, or grouped
@@ -47,6 +47,23 @@ Theorem C10_combine_order1 (S : ScalOps) (L : ScalLaws S) (o1 o2 oc : dop S) (ds
               oget S (alookup Nat.eqb v (d_p1 (dapply o2 (dapply o1 ds)))) k.
 Proof. exact (combine_order1 S L o1 o2 oc ds n). Qed.
 Print Assumptions C10_combine_order1.
+
+(* (5) nesting and '*' grouping WITH derivatives: for every nested structure of differentiable operators
+   (DOp) and operators without differentiable parameter (DPlain), lists iterated and '*' groups applying their
+   members in turn (what simulate() does by flattening and what a group called as an operator does since
+   /repo c26a99a), the state and ALL first- and second-order partials, hence every Jacobian column and Hessian
+   entry, equal those of the flat sequence *)
+Theorem C10_nested_eq_flat_with_partials (S : ScalOps) (t : dtree S) (ds : dstate S) :
+  drun_tree S t ds = drun (dflatten S t) ds.
+Proof. exact (dsimulate_nested_eq_flat S t ds). Qed.
+Print Assumptions C10_nested_eq_flat_with_partials.
+
+Theorem C10_nested_probes_eq_flat (S : ScalOps) (t : dtree S) (ds : dstate S) (vars : list var) :
+  f0 S (d_main (drun_tree S t ds)) = f0 S (d_main (drun (dflatten S t) ds)) /\
+  jacobian (drun_tree S t ds) vars = jacobian (drun (dflatten S t) ds) vars /\
+  hessian (drun_tree S t ds) vars = hessian (drun (dflatten S t) ds) vars.
+Proof. exact (nested_probes_eq_flat S t ds vars). Qed.
+Print Assumptions C10_nested_probes_eq_flat.
 
 (* non-vacuity: '@' accepts a scalar and a matrix operand on the executed instance *)
 Example C10_nonvacuous :
